@@ -368,3 +368,97 @@ func init() {
 		r.Check(okSet, "TablePage.setTuple:slot-describes-the-bytes", "the slot entry written by setTuple holds the position the bytes were copied to and their length", why)
 	})
 }
+
+func init() {
+	reg("C20-R5", "the LSN counter survives a launch that is cut between the truncation of the log and the write of the LSN-keeping record (and a lost log file): on the side on which Redo found no numbered record (greatest LSN == 0), NewSamehadaDB sets the next LSN from a value that depends on the LSNs of pages (Page.GetLSN, through its private helper), appends a numbered record and forces the log, before logging is re-activated", func(w *World, r *Report) {
+		a := w.A()
+		fn := w.Fn("samehada", "", "NewSamehadaDB")
+		redo := w.MethodObj("recovery/log_recovery", "LogRecovery", "Redo")
+		// the greatest LSN returned by Redo
+		var greatest ssa.Value
+		for _, s := range sitesCalling(fn, redo) {
+			for _, ref := range *s.(*ssa.Call).Referrers() {
+				if e, ok := ref.(*ssa.Extract); ok && e.Index == 0 {
+					greatest = e
+				}
+			}
+		}
+		if greatest == nil {
+			r.Bad("NewSamehadaDB:greatest-lsn-of-redo-is-used", "Redo's greatest LSN is used", "first result of Redo is unused")
+			return
+		}
+		isG := func(v ssa.Value) bool { return resolveCell(stripConv(v)) == greatest || stripConv(v) == greatest }
+		// the edge on which greatest == 0
+		var starts []*ssa.BasicBlock
+		for _, b := range fn.Blocks {
+			i := blockIf(b)
+			if i == nil {
+				continue
+			}
+			base, neg := condBase(i.Cond)
+			bo, ok := base.(*ssa.BinOp)
+			if !ok {
+				continue
+			}
+			isZero := func(x ssa.Value) bool {
+				cv, ok := constOf(x)
+				if !ok {
+					return false
+				}
+				iv, ok := constant.Int64Val(constant.ToInt(cv))
+				return ok && iv == 0
+			}
+			var zeroWhenTrue bool
+			switch {
+			case (isG(bo.X) && isZero(bo.Y) || isG(bo.Y) && isZero(bo.X)) && bo.Op == token.EQL:
+				zeroWhenTrue = true
+			case (isG(bo.X) && isZero(bo.Y) || isG(bo.Y) && isZero(bo.X)) && bo.Op == token.NEQ:
+				zeroWhenTrue = false
+			case isG(bo.X) && isZero(bo.Y) && bo.Op == token.LEQ:
+				zeroWhenTrue = true
+			case isG(bo.X) && isZero(bo.Y) && bo.Op == token.GTR:
+				zeroWhenTrue = false
+			default:
+				continue
+			}
+			succ := 0
+			if zeroWhenTrue == neg {
+				succ = 1
+			}
+			starts = append(starts, b.Succs[succ])
+		}
+		r.Floor("tests of Redo's greatest LSN against zero in NewSamehadaDB", len(starts), 1)
+		fromPages := func(in ssa.Instruction) bool {
+			c, ok := in.(ssa.CallInstruction)
+			if !ok || CalleeObj(c) != a.LMSetNextLSN {
+				return false
+			}
+			args := c.Common().Args
+			return w.DependsOnThroughHelpers(args[len(args)-1], IsCallTo(a.PageGetLSN))
+		}
+		for k, sb := range starts {
+			// on the zero side: a SetNextLSN fed from page LSNs is reachable, followed by a numbered append and a flush,
+			// unless no page has an LSN (a comparison of the helper's result guards the block: accepted)
+			wit := (&PathQ{Fn: fn, Target: fromPages}).FromAfterPos(sb)
+			r.Check(wit != nil, "NewSamehadaDB:lsn-restored-from-pages-when-log-is-empty"+itoaOrd(k+1), "with no numbered record on the log the next LSN is derived from the LSNs of the table pages", "on the side where Redo's greatest LSN is 0 no SetNextLSN depends on Page.GetLSN")
+			var sets []ssa.Instruction
+			for _, b := range fn.Blocks {
+				for _, in := range b.Instrs {
+					if fromPages(in) {
+						sets = append(sets, in)
+					}
+				}
+			}
+			isNumberedAppend := func(in ssa.Instruction) bool {
+				c, ok := in.(ssa.CallInstruction)
+				if !ok || CalleeObj(c) != a.LMAppend {
+					return false
+				}
+				args := c.Common().Args
+				return DependsOn(args[len(args)-1], IsCallTo(a.NewLogRecordTxn, a.NewLogRecordInsertDelete, a.NewLogRecordUpdate, a.NewLogRecordNewPage))
+			}
+			w2 := (&PathQ{Fn: fn, Avoid: isNumberedAppend, Target: InstrCallsObj(a.LMActivate)}).FromAfter(sets)
+			r.Check(w2 == nil && len(sets) > 0, "NewSamehadaDB:restored-counter-is-recorded"+itoaOrd(k+1), "after the counter was restored from the pages a numbered record is written before normal operation", "path from SetNextLSN(page LSNs) to ActivateLogging without a numbered append: "+w.DescribeWitness(fn, w2))
+		}
+	})
+}
